@@ -19,7 +19,7 @@ import (
 func TestMain(m *testing.M) { hx.Main(m) }
 
 type spec struct {
-	Kind   string `json:"kind"` // mix | cap | nogrowth | reset | syncfail
+	Kind   string `json:"kind"` // mix | cap | nogrowth | reset | syncfail | pairbusy | capfine | realrestart | flakypeer
 	Proto  string `json:"proto"`
 	RMs    int    `json:"reconnect_ms"`
 	MaxMs  int    `json:"max_ms"`
@@ -27,6 +27,7 @@ type spec struct {
 	Script string `json:"script,omitempty"` // R refuse, S succeed then drop, J hook rejects in Attaching, X peer drops at once
 	End    string `json:"end,omitempty"`    // close-idle | close-inflight | close-timer | close-connected | sockclose-*
 	Yield  bool   `json:"yield,omitempty"`
+	Tr     string `json:"tr,omitempty"` // flakypeer: transport
 }
 
 func TestC14(t *testing.T) {
@@ -61,8 +62,41 @@ func TestC14(t *testing.T) {
 	for i := 0; i < r.Pick(6, 120); i++ {
 		cases = append(cases, mon.CaseSpec{Name: "realrestart", Spec: spec{Kind: "realrestart", Proto: "push", RMs: []int{3, 10}[(i/3)%2], Async: true, Script: []string{"inproc", "ipc", "tcp"}[i%3]}})
 	}
+	// flakypeer (flaky_test.go): real transports, the harness holds the peer's address and decides per
+	// connection how its establishment fails after the transport connected; Script letters see there.
+	ftrs := []string{"tcp", "ipc", "tls+tcp", "ws", "wss"}
+	for i := 0; i < r.Pick(40, 1500); i++ {
+		R := []int{3, 10, 20}[(i/5)%3]
+		sp := spec{Kind: "flakypeer", Tr: ftrs[i%5], Proto: []string{"pair", "bus", "push", "req"}[rnd.Intn(4)], RMs: R, MaxMs: []int{0, R, 4 * R}[(i/15)%3],
+			Async: rnd.Intn(3) != 0, End: ends[i%len(ends)], Yield: rnd.Intn(2) == 0}
+		l := 2 + rnd.Intn(4)
+		for j := 0; j < l; j++ {
+			sp.Script += string("CEEPBWG"[rnd.Intn(7)])
+		}
+		if !sp.Async {
+			sp.Script = "G" + sp.Script // a synchronous dialer retries only after its first success
+		}
+		switch sp.End {
+		case "close-inflight", "sockclose-inflight":
+			sp.Script += "H"
+		case "close-timer", "sockclose-timer":
+			sp.Script += string("CEPBW"[rnd.Intn(5)])
+		default:
+			sp.Script += "G"
+		}
+		cases = append(cases, mon.CaseSpec{Name: "flakypeer/" + sp.Tr + "/" + sp.End, Spec: sp})
+	}
 	r.Run(cases, func(c *mon.Case) {
 		sp := c.Spec.(spec)
+		if sp.Kind == "flakypeer" {
+			if sp.Yield {
+				hx.SetYields(c.Rand.Int63(), &hx.YieldCfg{ProbGosched: 0.25, ProbSleep: 0.15, MaxSleep: 300 * time.Microsecond})
+				defer hx.SetYields(0, nil)
+			}
+			runFlaky(c, sp)
+			c.Sig("flakypeer|%s|%s|%d|%d|%v|%s|%s", sp.Tr, sp.Proto, sp.RMs, sp.MaxMs, sp.Async, sp.Script, sp.End)
+			return
+		}
 		if sp.Kind == "realrestart" {
 			runRealRestart(c, sp)
 			c.Sig("realrestart|%s|%d", sp.Script, sp.RMs)
